@@ -38,26 +38,56 @@ SOURCE_FUNCS = [(_MS, "BaseObservable.__get__"), (_MS, "BaseObservable.__set__")
                 (_MS, "Computed.__call__"), (_MS, "HasObservables.observe"), (_MS, "HasObservables.unobserve"),
                 (_MS, "HasObservables.notify"), (_MS, "HasObservables._mesa_notify"),
                 ("mesa/experimental/mesa_signals/signals_util.py", "create_weakref")]
-RULE = ("histories = 1-3 owners x 1-3 integer Observables, 1-4 Computables (DSL terms with branches that switch "
-        "the observables read and chains of Computables), then <= 30 top-level ops: assignments (40% restore the "
-        "current or a previous value), reads, owner collection, throw-away writer Computeds (cycle clause); the first "
-        "cases are the hand-written corner histories of the statement (chain+restore, branch flip and back, nested "
-        "comparison, write-other-then-self, collected parent); non-trivial = at least one computed re-evaluated after "
-        "installation and at least one read served from cache; distinct = SHA1 of the history")
+RULE = ("model-compared histories (612 quick / 12 012 thorough): 1-3 owners x 1-3 integer Observables (values incl. 1000, 70000), "
+        "1-4 Computables (DSL terms  const | obs | comp | + | if  with branches that switch the observables read and chains "
+        "of Computables; half of them return None where the model value is 0), owner classes laid out as one class per owner / "
+        "ONE class shared by all owners / observables on a base class and Computables on a subclass of a subclass with a mixin "
+        "after the framework base; then <= 30 top-level ops: assignments (40 % restore the current or a previous value), reads, "
+        "owner collection, throw-away writer Computeds (cycle clause; 40 % of them read the rejected Computed again); first the "
+        "hand-written corner histories (chain+restore, branch flip and back, nested comparison, write-other-then-self, None upstream, "
+        "rejected installation read again, collected parent) and extreme shapes (chain of 14, a Computable without reads, one "
+        "reading 9 observables of 3 owners).  Oracle-only histories (200 quick / 4 000 thorough, not representable over Z): "
+        "observable values bool / float (non-dyadic, -0.0) / int > 2^53 and < -2^63 / None / str / tuple / Fraction / Decimal, "
+        "functions that build tuples, test truthiness and raise a user exception (`req`), owners whose truth value is False "
+        "(__len__ 0 / __bool__ False).  Targeted enumerator (thorough / on a break): all op sequences of length <= 4 (5) over "
+        "{set x 0|1, set y 0|1, read c0, read c1} on six shapes, with and without None results, and all writer action lists "
+        "of length <= 3.  non-trivial = at least one computed re-evaluated after installation and at least one read served from "
+        "cache; distinct = SHA1 of the history")
 TRUSTED_BASE = [
-    "Coq 8.16.1 kernel (coqc); vm_compute used for the non-vacuity examples, the refutation witness and the correspondence",
-    "no axioms: Print Assumptions reports 'Closed under the global context' for every C17 theorem",
+    "Coq 8.16.1 kernel (coqc); vm_compute used for the non-vacuity examples, the refutation witness, the skeleton flag and the correspondence",
+    "no axioms: Print Assumptions reports 'Closed under the global context' for every C17 theorem (37 statements in Properties/C17.v)",
     "harness/props/C17.py driver+observer, the DSL->closure builder and the Gallina literal printer (T2, differential testing, not a proof)",
-    "Model/Computed.v is a hand transcription of mesa_signal.py (Observable.__get__/__set__, Computable.__get__, Computed.__call__/_set_dirty/_add_parent/_remove_parents, HasObservables.observe/unobserve/notify restricted to 'change' signals); Python int = Z, dict = insertion-ordered association list, WeakKeyDictionary = the same filtered by liveness",
+    "harness/tables/computed_code.py + harness/pyexpr.py (code-level T1): the statement translator SigTr and its fixed dictionary "
+    "source statement -> model primitive (object plumbing: getattr / setattr / notify / observe / PROCESSING_SIGNALS); the normaliser "
+    "(locals alpha-renamed, exception messages abstracted)",
+    "Model/Computed.v: state = store, liveness, per-Computed dirty/first/value/count/parents (nested insertion-ordered dict), subscriber "
+    "lists, PROCESSING_SIGNALS; Python int = Z, dict = association list, WeakKeyDictionary = the same filtered at collection; "
+    "HasObservables.observe/unobserve/notify are transcribed by hand for the 'change' signal only (the weak subscriber list is the "
+    "model's index/liveness test in set_dirty)",
     "Uint63 primitive hash only in scratch Cases files, never under a theorem",
 ]
 ASSUMPTIONS = [
-    "observable values are Python ints; computed functions are pure DSL terms (reads, +, if) - functions with side effects occur only as throw-away writer Computeds (cycle clause)",
-    "a computed flagged none0 returns None where the model value is 0 (a function may legitimately return None) and every read of a Computable maps None back to 0, so the model stays over Z while None flows through _value, the remembered parent values and the forwarded change signals",
+    "model-compared histories: observable values are Python ints, computed functions are pure DSL terms (reads, +, if); functions "
+    "with side effects occur only as throw-away writer Computeds (ops win / win2); everything else about values (floats, None, str, "
+    "tuples, Fraction, Decimal, huge ints, bool), user exceptions inside functions and falsy owners is checked by the oracle only",
+    "a computed flagged none0 returns None where the model value is 0 and every read of a Computable maps None back to 0, so the model "
+    "stays over Z while None flows through _value, the remembered parent values and the forwarded change signals",
     "top-level sequences of assignments and reads (the quantifier); handlers that read a Computable during a notification are outside it",
-    "owners carry only Observable and Computable descriptors (every signal-type set is {'change'}), so the check is insensitive to the C16 unobserve defect and to its repair",
-    "the cycle clause is demanded for a function that itself reads an observable and later writes it; transitive cycles through a cached Computable are recorded, not demanded",
-    "never-stale theorem proved for histories without owner collection; collection of a read owner is the known finding C17/Computed/stale-after-parent-collected",
+    "owners carry only Observable and Computable descriptors (every signal-type set is {'change'}), so the check is insensitive to "
+    "the C16 unobserve defect and to its repair",
+    "cycle clause: demanded for a function that itself reads an observable and later assigns it (C17_cycle_rejected, full strength); "
+    "a transitive cycle through a Computable served from cache is ACCEPTED by the code (C17_cycle_through_cache_accepted) and not "
+    "demanded; a function that reads nothing can be rejected because PROCESSING_SIGNALS keeps the reads of earlier evaluations "
+    "until the next top-level assignment (C17_read_set_persists_until_assignment) - neither is promised by the statement",
+    "never-stale / no-spurious / parents-are-last-reads theorems: all histories WITHOUT owner collection; with collection: proved for "
+    "healthy clean computeds right after any number of collections (C17_never_stale_after_collections_partial) and the invariant "
+    "relative to the healthy set survives collections (C17_healthy_invariant_survives_collections); the evaluation chain in states "
+    "with dead owners is not proved; a Computed that read a collected owner stays stale: known finding "
+    "C17/Computed/stale-after-parent-collected (refutation witness C17_never_stale_refuted)",
+    "finding candidates recorded, not judged (keys under cand/): a rejected installation leaves the Computed installed and later "
+    "reads return None (C17_rejected_installation_then_read_returns_none); after a user exception inside a function later reads "
+    "serve the cached value instead of raising; an owner whose truth value is False is taken for collected and its dependants "
+    "re-run on every dirty check (proposed one-token repair fixes/C17-5)",
 ]
 SHRINK = True
 
@@ -135,7 +165,100 @@ def _rand_case(rng, nops):
                 else:
                     acts.append(["w", o, n, rng.choice([0, 1, 2, 5])])
             ops.append(["win2" if rng.random() < 0.4 else "win", acts])
-    return {"init": init, "comps": comps, "ops": ops}
+    return {"init": init, "comps": comps, "ops": ops, "layout": rng.choice(["own", "own", "shared", "deep"])}
+
+
+# --- oracle-only stream (the Z-valued model cannot represent it): arbitrary Python values in the observables, functions
+# that build tuples / test truthiness / raise, owners whose truth value is False, class layouts
+_POOL = [["i", 0], ["i", 1], ["b", True], ["b", False], ["f", "1.0"], ["f", "2.5"], ["f", "0.30000000000000004"],
+         ["f", "0.3"], ["i", 2 ** 53 + 1], ["i", 10 ** 20], ["i", -(2 ** 63)], ["n"], ["s", "a"], ["s", ""],
+         ["t", [["i", 1], ["i", 2]]], ["t", []], ["F", 1, 3], ["D", "1.5"], ["f", "-0.0"]]
+
+
+def _dec(v):
+    import decimal
+    import fractions
+
+    t = v[0]
+    if t == "i":
+        return int(v[1])
+    if t == "b":
+        return bool(v[1])
+    if t == "f":
+        return float(v[1])
+    if t == "n":
+        return None
+    if t == "s":
+        return v[1]
+    if t == "t":
+        return tuple(_dec(x) for x in v[1])
+    if t == "F":
+        return fractions.Fraction(v[1], v[2])
+    if t == "D":
+        return decimal.Decimal(v[1])
+    raise ValueError(t)
+
+
+def _het_expr(rng, owners, j, depth):
+    def obs():
+        o = rng.randrange(len(owners))
+        return ["o", o, rng.randrange(owners[o])]
+    r = rng.random()
+    if depth <= 0 or r < 0.3:
+        q = rng.random()
+        if q < 0.6 or j == 0:
+            return obs()
+        if q < 0.9:
+            return ["k", rng.randrange(j)]
+        return ["c", rng.choice(_POOL)]
+    if r < 0.55:
+        return ["if", obs(), _het_expr(rng, owners, j, depth - 1), _het_expr(rng, owners, j, depth - 1)]
+    if r < 0.9:
+        return ["+", _het_expr(rng, owners, j, depth - 1), _het_expr(rng, owners, j, depth - 1)]
+    return ["req", _het_expr(rng, owners, j, depth - 1)]
+
+
+def _het_case(rng):
+    nown = rng.choice([1, 2, 2, 3])
+    owners = [rng.randint(1, 3) for _ in range(nown)]
+    init = [[rng.choice(_POOL) for _ in range(k)] for k in owners]
+    ncomp = rng.randint(1, 4)
+    comps = [{"owner": rng.randrange(nown), "expr": _het_expr(rng, owners, j, rng.choice([1, 2, 2, 3]))} for j in range(ncomp)]
+    ops = []
+    hist = {}
+    for _ in range(rng.randint(4, 24)):
+        r = rng.random()
+        if r < 0.5:
+            o = rng.randrange(nown)
+            n = rng.randrange(owners[o])
+            v = rng.choice(hist[(o, n)]) if hist.get((o, n)) and rng.random() < 0.35 else rng.choice(_POOL)
+            hist.setdefault((o, n), []).append(v)
+            ops.append(["set", o, n, v])
+        elif r < 0.97:
+            ops.append(["read", rng.randrange(ncomp)])
+        else:
+            ops.append(["kill", rng.randrange(nown)])
+    falsy = [o for o in range(nown) if rng.random() < 0.2]
+    return {"het": True, "init": init, "comps": comps, "ops": ops, "falsy": falsy,
+            "layout": rng.choice(["own", "shared", "deep"])}
+
+
+def _extreme_cases():
+    """extreme but legal shapes: a chain of 14 Computables, a Computable without any read, one reading every
+    observable of three owners, an empty history tail, the same read repeated"""
+    cs = []
+    chain = [{"owner": 0, "expr": ["o", 0, 0]}] + [{"owner": j % 2, "expr": ["+", ["k", j - 1], ["o", 0, 0]]} for j in range(1, 14)]
+    cs.append({"init": [[1], [0]], "comps": chain, "layout": "shared",
+               "ops": [["read", 13], ["set", 0, 0, 2], ["read", 13], ["read", 13], ["set", 0, 0, 2], ["read", 6], ["read", 13],
+                       ["set", 0, 0, 0], ["read", 0], ["read", 13]]})
+    cs.append({"init": [[1, 2, 3], [4, 5, 6], [7, 8, 9]], "layout": "deep",
+               "comps": [{"owner": 0, "expr": ["c", 5]},
+                         {"owner": 1, "expr": ["+", ["+", ["+", ["o", 0, 0], ["o", 0, 1]], ["+", ["o", 0, 2], ["o", 1, 0]]],
+                                                ["+", ["+", ["o", 1, 1], ["o", 1, 2]], ["+", ["+", ["o", 2, 0], ["o", 2, 1]], ["+", ["o", 2, 2], ["k", 0]]]]]}],
+               "ops": [["read", 0], ["read", 0], ["set", 2, 2, 0], ["read", 1], ["read", 0], ["set", 2, 2, 9], ["read", 1],
+                       ["set", 0, 0, 1], ["set", 1, 1, 5], ["read", 1], ["kill", 2], ["read", 1], ["set", 1, 1, 6], ["read", 1]]})
+    cs.append({"init": [[0]], "comps": [{"owner": 0, "expr": ["c", 0], "none0": True}], "ops": [["read", 0], ["set", 0, 0, 1], ["read", 0]]})
+    return cs
 
 
 def _corner_cases():
@@ -189,10 +312,12 @@ def _corner_cases():
 
 
 def gen_cases(rng, tier):
-    cases = _corner_cases()
+    cases = _corner_cases() + _extreme_cases()
     n = 600 if tier == "quick" else 12000
     for _ in range(n):
         cases.append(_rand_case(rng, rng.randint(4, 30)))
+    for _ in range(200 if tier == "quick" else 4000):
+        cases.append(_het_case(rng))
     return cases
 
 
@@ -251,7 +376,7 @@ def _pure(env, e, j):
     """direct evaluation of a DSL term on the shadow store: what the function returns if evaluated right now"""
     t = e[0]
     if t == "c":
-        return e[1]
+        return _dec(e[1]) if env.het else e[1]
     if t == "o":
         return env.shadow[(e[1], e[2])] if e[1] in env.alive else 0
     if t == "k":
@@ -260,21 +385,51 @@ def _pure(env, e, j):
             return _pure(env, env.exprs[k], k)
         return 0
     if t == "+":
-        return _pure(env, e[1], j) + _pure(env, e[2], j)
+        a = _pure(env, e[1], j)
+        b = _pure(env, e[2], j)
+        return (a, b) if env.het else a + b
     if t == "if":
         return _pure(env, e[2], j) if _pure(env, e[1], j) else _pure(env, e[3], j)
+    if t == "req":
+        v = _pure(env, e[1], j)
+        if not v:
+            raise _Required()
+        return v
     raise ValueError(t)
 
 
+class _Required(LookupError):
+    """the user-code exception of the oracle-only stream (`req`: the function needs a truthy value)"""
+
+
+_GONE = object()
+
+
 def _cur(env, src):
-    """current value of a source, None if its owner is gone"""
+    """current value of a source, _GONE if its owner is gone (or its function raises now)"""
     if src[0] == "o":
-        return env.shadow[(src[1], src[2])] if src[1] in env.alive else None
+        return env.shadow[(src[1], src[2])] if src[1] in env.alive else _GONE
     k = src[1]
-    return _pure(env, env.exprs[k], k) if env.cowner[k] in env.alive else None
+    if env.cowner[k] not in env.alive:
+        return _GONE
+    try:
+        return _pure(env, env.exprs[k], k)
+    except _Required:
+        return _GONE
+
+
+CAND_FALSY = "cand/C17/Computed.__call__/falsy-owner-treated-as-collected"
+CAND_EXC = "cand/C17/Computed.__call__/exception-in-function-then-cached-value-served"
 
 
 def _fail(env, key, what):
+    """finding CANDIDATES (report, round 5) are recorded under a key the framework does not report: symptoms that
+    follow from a user-code exception inside a function earlier in the history, and re-runs caused by an owner
+    whose truth value is False"""
+    if getattr(env, "exc_seen", False) and key.startswith("C17/"):
+        key = CAND_EXC
+    elif getattr(env, "falsy", None) and "spurious-recompute" in key:
+        key = CAND_FALSY
     env.failures.append({"key": key, "op": env.opi, "what": what})
 
 
@@ -288,7 +443,7 @@ def _classify_spurious(env, j):
             oi = env.ids.get(id(parent))
             for name, old in list(comp.parents[parent].items()):
                 src = ("o", oi, int(name[1:])) if name[0] == "x" else ("k", int(name[1:]))
-                if _cur(env, src) != _z(old):
+                if _cur(env, src) != env.z(old):
                     if src in last:
                         return "remembered-parent-value-was-never-read", f"remembers {name}={old} of owner {oi}, but the value it read was {dict(env.last_reads[j])[src]}"
                     if src in env.ever_reads[j]:
@@ -301,7 +456,12 @@ def _classify_spurious(env, j):
 
 def _chain_check(env, k, v, who):
     """no stale value is served through chains either"""
-    exp = _pure(env, env.exprs[k], k)
+    try:
+        exp = _pure(env, env.exprs[k], k)
+    except _Required:
+        key = "C17/Computed/stale-after-parent-collected" if _dead_upstream(env, k) else "C17/Computable/stale-value-in-chain"
+        _fail(env, key, f"{who} read c{k} and got {v!r}; c{k}'s function evaluated now raises")
+        return
     if v != exp:
         dead = _dead_upstream(env, k)
         if dead:
@@ -317,7 +477,12 @@ def _mk_func(env, j, expr):
     def ev(e):
         t = e[0]
         if t == "c":
-            return e[1]
+            return _dec(e[1]) if env.het else e[1]
+        if t == "req":
+            v = ev(e[1])
+            if not v:
+                raise _Required()
+            return v
         if t == "o":
             o = env.owners.get(e[1])
             if o is None:
@@ -330,13 +495,14 @@ def _mk_func(env, j, expr):
             o = env.owners.get(env.cowner[k])
             if o is None or k >= j:
                 return 0
-            v = _z(getattr(o, f"c{k}"))
+            v = env.z(getattr(o, f"c{k}"))
             env.reads.append((("k", k), v))
             _chain_check(env, k, v, f"computed c{j}")
             return v
         if t == "+":
             a = ev(e[1])
-            return a + ev(e[2])
+            b = ev(e[2])
+            return (a, b) if env.het else a + b
         if t == "if":
             return ev(e[2]) if ev(e[1]) else ev(e[3])
         raise ValueError(t)
@@ -356,17 +522,22 @@ def _mk_func(env, j, expr):
         env.reads = []
         try:
             r = ev(expr)
+        except _Required:
+            env.exc_seen = True
+            raise
         finally:
             mine = env.reads
             env.reads = saved
         env.last_reads[j] = mine
         env.ever_reads[j].update(s for s, _ in mine)
-        return None if (r == 0 and env.none0[j]) else r
+        return None if (not env.het and r == 0 and env.none0[j]) else r
 
     return func
 
 
 def _state_obs(env):
+    if env.het:
+        return []
     out = list(env.cnt)
     for o in sorted(env.alive):
         own = env.owners[o]
@@ -389,6 +560,11 @@ def run_impl(case):
     env = _Env()
     env.failures = []
     env.opi = -1
+    env.het = bool(case.get("het"))
+    env.z = (lambda v: v) if env.het else _z
+    env.exc_seen = False
+    env.falsy = list(case.get("falsy", [])) if env.het else []
+    dec = _dec if env.het else (lambda v: v)
     init = case["init"]
     comps = case["comps"]
     env.nobs = [len(v) for v in init]
@@ -408,17 +584,40 @@ def run_impl(case):
         t = Observable()
 
     dummy = Dummy()
+    layout = case.get("layout", "own")
+    shared = None
+    if layout == "shared":        # every owner is an instance of ONE class carrying all descriptors (class-level state)
+        ns = {f"x{n}": Observable() for n in range(max(len(v) for v in init))}
+        ns.update({f"c{j}": Computable() for j in range(len(comps))})
+        shared = type("SharedOwner", (HasObservables,), ns)
+
+    class Mixin:                  # placed AFTER the framework base in the MRO
+        tag = "mixin"
+
+        def describe(self):
+            return self.tag
+
     for o, vals in enumerate(init):
-        ns = {f"x{n}": Observable() for n in range(len(vals))}
-        for j, c in enumerate(comps):
-            if c["owner"] == o:
-                ns[f"c{j}"] = Computable()
-        cls = type(f"Owner{o}", (HasObservables,), ns)
+        mine = {f"c{j}": Computable() for j, c in enumerate(comps) if c["owner"] == o}
+        if shared is not None:
+            cls = shared
+        elif layout == "deep":    # observables on a base class, Computables on a subclass of a subclass + mixin
+            base = type(f"Base{o}", (HasObservables,), {f"x{n}": Observable() for n in range(len(vals))})
+            mid = type(f"Mid{o}", (base,), {})
+            cls = type(f"Owner{o}", (mid, Mixin), mine)
+        else:
+            ns = {f"x{n}": Observable() for n in range(len(vals))}
+            ns.update(mine)
+            cls = type(f"Owner{o}", (HasObservables,), ns)
+        if o in env.falsy:        # an owner whose truth value is False (a container that is empty)
+            extra = {"__len__": (lambda self: 0)} if o % 2 == 0 else {"__bool__": (lambda self: False)}
+            cls = type(f"Falsy{o}", (cls,), extra)
         inst = cls()
         env.owners[o] = inst
         env.ids[id(inst)] = o
         env.alive.add(o)
         for n, v in enumerate(vals):
+            v = dec(v)
             setattr(inst, f"x{n}", v)
             env.shadow[(o, n)] = v
     setup_ok = True
@@ -441,6 +640,7 @@ def run_impl(case):
                 if o not in env.alive:
                     obs.append([-2])
                     continue
+                v = dec(v)
                 env.shadow[(o, n)] = v
                 setattr(env.owners[o], f"x{n}", v)
                 obs.append([T_SET] + _state_obs(env))
@@ -449,7 +649,10 @@ def run_impl(case):
                 if env.cowner[j] not in env.alive:
                     obs.append([-2])
                     continue
-                got = _z(getattr(env.owners[env.cowner[j]], f"c{j}"))
+                if env.het:
+                    obs.append(_het_read(env, j))
+                    continue
+                got = env.z(getattr(env.owners[env.cowner[j]], f"c{j}"))
                 exp = _pure(env, env.exprs[j], j)
                 if got != exp:
                     dead = []
@@ -491,14 +694,40 @@ def run_impl(case):
                     _fail(env, "C17/Observable/value-differs-from-assignment", f"x{n} of owner {o} holds {getattr(env.owners[o], f'x{n}')}, last assigned {env.shadow[(o, n)]}")
                     env.shadow[(o, n)] = getattr(env.owners[o], f"x{n}")
     gc.enable()
+    if env.het:
+        return {"obs": obs, "failures": env.failures, "model": False}
     return {"obs": obs, "failures": env.failures}
+
+
+def _het_read(env, j):
+    """read in the oracle-only stream: arbitrary values, functions that may raise _Required"""
+    try:
+        exp, exp_raises = _pure(env, env.exprs[j], j), False
+    except _Required:
+        exp, exp_raises = None, True
+    try:
+        got, got_raises = getattr(env.owners[env.cowner[j]], f"c{j}"), False
+    except _Required:
+        got, got_raises = None, True
+        env.exc_seen = True
+    if exp_raises and not got_raises:
+        key = "C17/Computed/stale-after-parent-collected" if _dead_upstream(env, j) else "C17/Computable/stale-value"
+        _fail(env, key, f"read c{j} = {got!r}; its function evaluated now raises")
+    elif got_raises and not exp_raises:
+        _fail(env, "C17/read/unexpected-exception", f"read c{j} raised; its function evaluated now gives {exp!r}")
+    elif not got_raises and not (got == exp):
+        if _dead_upstream(env, j):
+            _fail(env, "C17/Computed/stale-after-parent-collected", f"read c{j} = {got!r}; its function evaluated now gives {exp!r} (collected owner upstream)")
+        else:
+            _fail(env, "C17/Computable/stale-value", f"read c{j} = {got!r}; its function evaluated now gives {exp!r}")
+    return [T_READ, 1 if got_raises else 0]
 
 
 def _dead_upstream(env, j, seen=None):
     """sources with a collected owner among the transitive last reads of j"""
     out = []
     for s, _ in env.last_reads.get(j, []):
-        if _cur(env, s) is None:
+        if _cur(env, s) is _GONE:
             out.append(s)
         elif s[0] == "k":
             out += _dead_upstream(env, s[1])
@@ -527,7 +756,7 @@ def _win(env, acts, ms, Computable, Computed, HasObservables, keep=False):
                 o = env.owners.get(env.cowner[k])
                 if o is None:
                     continue
-                v = _z(getattr(o, f"c{k}"))
+                v = env.z(getattr(o, f"c{k}"))
                 _chain_check(env, k, v, "a writer function")
             else:
                 _, oi, n, v = a
@@ -554,9 +783,9 @@ def _win(env, acts, ms, Computable, Computed, HasObservables, keep=False):
     status = 0
     try:
         tmp.t = Computed(func)
-    except ValueError as e:
-        if "cyclical dependency" not in str(e):
-            raise
+    except ValueError:
+        # by TYPE and position: the writer function only reads and assigns observables, so the only ValueError that
+        # can come out of the installation is the cycle rejection of Observable.__set__ (never by message text)
         status = E_CYCLE
     if state["must_reject"] is not None and status != E_CYCLE:
         oi, n, _, after_other = state["must_reject"]
@@ -571,9 +800,7 @@ def _win(env, acts, ms, Computable, Computed, HasObservables, keep=False):
         try:
             r = tmp.t
             status2 = 2 if r is None else 3
-        except ValueError as e:
-            if "cyclical dependency" not in str(e):
-                raise
+        except ValueError:
             status2 = 1
     del tmp
     gc.collect()
@@ -647,16 +874,37 @@ def nontrivial(case):
     return recomputed and cached
 
 
-LEVEL_TEXT = ("Machine-checked Coq theorems over a Gallina transcription of the Observable/Computable/Computed machinery "
-              "(read registration, dirty cascade through subscriber lists, comparison of remembered parent values, dependency "
-              "rebuild, PROCESSING_SIGNALS cycle detection): for every dependency structure and every history of assignments, "
-              "reads and writer Computeds, a read returns the value of the function on the current store (C17_never_stale), the "
-              "function is run only if a value it read last time differs now (C17_no_spurious), and a function that reads an "
-              "observable and later assigns it is rejected (C17_cycle_rejected). The model is tied to the code by differential "
-              "evaluation of model vs implementation after every operation; an independent oracle (direct evaluation of the DSL "
-              "term on a shadow store, read-recording closures) states the property on the implementation.")
-LEVEL_NOTE = ("Theorems are about the model, as repaired by fixes/C17-*.diff. Owner collection is modelled but excluded from the "
-              "never-stale theorem (known finding: a collected parent does not mark the Computed dirty; refutation witness proved). "
-              "Trusted: Coq kernel, the driver/observer, CPython dict/weakref semantics as modelled. No axioms.")
-TECHNIQUE = "Coq proof (fuel-indexed evaluation, invariant over all histories, closed under global context) + vm_compute correspondence + independent oracle"
+LEVEL_TEXT = ("Machine-checked Coq theorems (37 statements incl. 13 non-vacuity examples, all closed under the global context) over "
+              "Model/Computed.v, an executable Gallina transcription of the Observable/Computable/Computed machinery of mesa_signal.py "
+              "as repaired by four fix: commits (read registration, dirty cascade through subscriber lists, comparison of remembered "
+              "parent values in dict order, dependency rebuild, PROCESSING_SIGNALS cycle detection, owner collection, rejected "
+              "installations).  For every dependency structure and every history of assignments, reads and writer Computeds without "
+              "owner collection: a read returns the direct recursive evaluation of the function on the current store, through chains of "
+              "any length (C17_never_stale_partial, C17_chain_read_is_recursive_evaluation); Computed.parents is exactly the reads of "
+              "the last evaluation with the values read, subscribed to each (C17_parents_are_last_reads); reading ANY computed runs the "
+              "function of k at most once and only if a value it read last time differs (C17_recompute_justified_partial, "
+              "C17_no_spurious_partial, C17_assignment_runs_nothing); a function that reads an observable and later assigns it is "
+              "rejected in every state (C17_cycle_rejected) and what the code accepts/rejects beyond that is characterised exactly "
+              "(C17_write_rejected_iff_in_read_set, C17_read_computable_then_write, C17_cycle_through_cache_accepted, "
+              "C17_read_set_persists_until_assignment, C17_rejected_installation_then_read_returns_none).  Owner collection: refutation "
+              "witness for the computeds that read the collected owner, exactness for the healthy clean ones after any number of "
+              "collections, and the invariant relative to the healthy set (environment form RDe) preserved by collections.  Code-level "
+              "T1: nine constructs regenerate gen_obs_get, gen_obs_set, gen_comp_get, gen_set_dirty, gen_add_parent, "
+              "gen_remove_parents, gen_cmp_changed, gen_call and a normalised statement skeleton from the working tree on every run; "
+              "bridge lemmas prove each model function equal to the generated one and a machine assembled from the generated code "
+              "equal to the model (C17_source_code_is_model), so the headline theorem is restated for the translated source "
+              "(C17_never_stale_of_source, C17_cycle_rejected_of_source).  T2: model and implementation are compared after every "
+              "operation; an independent oracle (direct evaluation of the term on a shadow store, read-recording closures) states "
+              "the property on the implementation, also over arbitrary Python values, raising functions and falsy owners.")
+LEVEL_NOTE = ("Theorems are about the model; the tie to the code is T1 (translated control flow with a trusted statement dictionary, "
+              "skeleton for the weak-reference loop nest, try/finally and Computable.__set__) and T2 (differential testing).  Not proved: "
+              "Computed.__call__ in states with dead owners (histories continuing after a collection), hence the _partial names.  "
+              "Oracle only: non-int values, user exceptions in functions, falsy owners, class layouts.  Defects: 4 repaired "
+              "(cached parent value registered; read set cleared inside an evaluation; parents of earlier evaluations kept; nested "
+              "comparison registers on the enclosing Computed), 1 known finding (stale after a parent owner is collected), 3 finding "
+              "candidates recorded under cand/ keys.  Trusted: Coq kernel, translator + dictionary, driver/observer, CPython "
+              "dict/weakref/gc semantics as modelled.  No axioms.")
+TECHNIQUE = ("Coq proof (fuel-indexed evaluation, invariant over all histories, second induction for run counts, healthy-set invariant "
+             "for collections; closed under the global context) + code-level T1 (statement translator, bridge lemmas, normalised "
+             "skeleton) + vm_compute correspondence + independent oracle incl. an oracle-only value/exception/falsy-owner stream")
 DESIGN_REF = "DESIGN.md section 4, C17"
